@@ -730,7 +730,10 @@ func tiers(c *fw.Ctx, runTLC tlcRunner, cover map[string]int64) error {
 		ex("triple4.cfg", "Spec", 3, 4, 3, 2, 1, "triple", invGen, bothKinds) // 4 package dirs, some path in 3 places
 		ex("graphs.cfg", "Spec", 2, 4, 4, 3, 1, "all", invGen, bothKinds)     // flat trees, <= 4 packages, every DAG / cyclic graph with <= 4 statements
 		ex("nested3.cfg", "Spec", 3, 3, 3, 2, 1, "nested", invGen, bothKinds)
-		ex("chain4.cfg", "Spec", 3, 4, 4, 1, 1, "chain", invGen, bothKinds) // 4 package dirs, chains of 4 imports: the chain starts from a string main too
+		// (4 package dirs with 4 imports do not finish in 9 minutes; measured: 4 dirs x 3 imports 1.15 M states in 50 s,
+		// 3 dirs x 4 imports (2 per file) 0.24 M states in 30 s)
+		ex("chain4.cfg", "Spec", 3, 4, 3, 1, 1, "chain", invGen, bothKinds)  // 4 package dirs, chains of 3 imports
+		ex("chain3w.cfg", "Spec", 3, 3, 4, 2, 1, "chain", invGen, bothKinds) // 3 package dirs, 4 imports, 2 per file
 	}
 	nsim := c.Pick(3, 24)
 	for j := 0; j < nsim; j++ {
